@@ -3,7 +3,8 @@
 From Coq Require Import List NArith Bool.
 From SV Require Import Reconciler.Retries Reconciler.Model Reconciler.RetriesProofs Reconciler.CommitProofs
   Reconciler.RoundProofs Reconciler.CoverProofs Reconciler.StepProofs Reconciler.Refuted
-  Reconciler.TableWf Reconciler.StreamProofs Reconciler.PhaseProofs Reconciler.BatchProofs Reconciler.RoundInv Reconciler.Runs Reconciler.Progress.
+  Reconciler.TableWf Reconciler.StreamProofs Reconciler.PhaseProofs Reconciler.BatchProofs Reconciler.RoundInv Reconciler.Runs Reconciler.Progress
+  Reconciler.Converge Reconciler.ItemsInv.
 Import ListNotations.
 Open Scope N_scope.
 
@@ -122,13 +123,14 @@ Proof. exact quiescent_is_reconciled. Qed.
 Print Assumptions C14_quiescent_is_reconciled.
 
 (* ... in every reachable state, whatever history of writes, faults and timings led there.
-   MISSING for the full bounded-convergence statement (`converges`): (1) the progress argument — once the
-   oracle only answers ok and no write occurs, each round executed past the largest retryAt decreases
-   (#pending or deleted changes ahead of the cursor) + (#retry items) by min(roundSize, that number), and
-   one more round skips the Done objects the commits wrote, so quiescence is reached after
-   ceil(pending / roundSize) + |items| + 2 rounds; (2) target = table (the last successful operation per
-   key), which needs a ghost linking Done statuses to e_target. Both are covered on every check by the
-   exact correspondence of the `final` line (P:C14) and the !BAD:C14 oracles. *)
+   The full bounded-convergence statement is proved below (C14_converges_bounded, C14_converges_and_stays,
+   C14_converges_from_reach, C14_converges_after_faults_stop): the progress argument — once the oracle only
+   answers ok and no user write is pending, each round decreases (#pending or deleted changes ahead of the
+   cursor) + (#retry items) by min(roundSize, that number), one more round skips the Done objects the commits
+   wrote — gives quiescence after ceil((pending + items) / roundSize) + 1 rounds.
+   STILL MISSING: target = table (the last successful operation per key), which needs a ghost linking Done
+   statuses to e_target; it is covered on every check by the exact correspondence of the `final` line
+   (P:C14) and the !BAD:C14 oracles. *)
 Theorem C14_converges_partial : forall cf st, reach cf st ->
   quiescent (fst st) (snd st) -> reconciled (fst st).
 Proof. exact converges_partial. Qed.
@@ -136,7 +138,7 @@ Print Assumptions C14_converges_partial.
 
 (* progress, first half: once the fault oracle only answers ok, a round (either mode, hooks may still
    write) never queues a retry — every key with a retry item after the round had one before — so the retry
-   queue only drains. (Second half, not proved: the count of changes processed per round.) *)
+   queue only drains. (Second half: C14_round_progress below.) *)
 Theorem C14_faults_off_no_new_retries : forall cf e s e' s', e_foff e = true -> round cf e s = (e', s') ->
   e_foff e' = true /\ qsub (k_ret s') (k_ret s).
 Proof. exact faults_off_no_new_retries. Qed.
@@ -149,3 +151,134 @@ Proof.
   - subst pk. vm_compute. left. reflexivity.
   - apply (covered_ext _ (t_empty false)); [apply slot_insert_other; exact E|exact I].
 Qed.
+
+
+(* ------------------------------------------------------------------ bounded convergence (Converge.v, ItemsInv.v) *)
+(* calm e (Converge.v): the fault oracle only answers ok (e_foff) and no user write is pending inside a future
+   operation (hooks_inert: every registered hook is keyed by an attempt number already in the past; in
+   particular e_hooks e = []). The refresh loop is not part of `round`: a refresh is the user write `ref`,
+   so "no refresh due" is part of "the table stops changing". Rounds do not move the clock, so "every queued
+   item is due" stays true.
+   items_ready e s: every retry item is queued and due, or its key has a deletion / a Pending or Refreshing
+   object ahead of the cursor (then the change phase Clears it).
+   measure e s = (#changes ahead of the cursor that are deletions or Pending/Refreshing objects) + (#retry items).
+   One round, either mode, any round size >= 1: the measure drops by at least min(roundSize, measure). *)
+Theorem C14_round_progress : forall cf e s e' s', twf (e_tab e) -> 0 < cf_rs cf -> calm e -> items_ready e s ->
+  round cf e s = (e', s') ->
+  calm e' /\ e_now e' = e_now e /\ items_ready e' s' /\
+  (measure e' s' + Nat.min (N.to_nat (cf_rs cf)) (measure e s) <= measure e s)%nat.
+Proof. exact round_progress. Qed.
+Print Assumptions C14_round_progress.
+
+(* a round that finds no retry item and nothing to act on ahead of the cursor calls no operation, writes
+   nothing, and leaves the reconciler quiescent (no hypothesis on faults, hooks or time) *)
+Theorem C14_idle_round : forall cf e s e' s', twf (e_tab e) -> q_items (k_ret s) = [] ->
+  pending_ahead (e_tab e) (k_cursor s) = 0%nat -> round cf e s = (e', s') ->
+  e_tab e' = e_tab e /\ e_now e' = e_now e /\ e_foff e' = e_foff e /\ e_hooks e' = e_hooks e /\
+  e_attempts e' = e_attempts e /\ k_ret s' = k_ret s /\ k_cursor s <= k_cursor s' /\ quiescent e' s'.
+Proof. exact idle_round. Qed.
+Print Assumptions C14_idle_round.
+
+(* converges_bounded: quiescent and reconciled after at most
+   bound cf e s = ceil(measure e s / roundSize) + 1 rounds *)
+Theorem C14_converges_bounded : forall cf e s, full_inv e s -> 0 < cf_rs cf -> calm e -> items_ready e s ->
+  exists n, (n <= bound cf e s)%nat /\
+    quiescent (fst (iter_round cf n (e, s))) (snd (iter_round cf n (e, s))) /\
+    reconciled (fst (iter_round cf n (e, s))).
+Proof. exact converges_bounded. Qed.
+Print Assumptions C14_converges_bounded.
+
+Theorem C14_bound_is : forall cf e s,
+  bound cf e s = (N.to_nat ((N.of_nat (measure e s) + cf_rs cf - 1) / cf_rs cf) + 1)%nat /\
+  measure e s = (length (filter ch_act (changes_of (e_tab e) (k_cursor s))) + length (q_items (k_ret s)))%nat.
+Proof. intros cf e s. split; reflexivity. Qed.
+Print Assumptions C14_bound_is.
+
+(* idempotence: a quiescent reconciler stays quiescent under further rounds — table, queue and cursor do not
+   move (a due prune tick only adds a Prune call to the log) *)
+Theorem C14_quiescent_stable : forall cf e s e' s', full_inv e s -> quiescent e s -> round cf e s = (e', s') ->
+  quiescent e' s' /\ e_tab e' = e_tab e /\ k_ret s' = k_ret s /\ k_cursor s' = k_cursor s.
+Proof. exact quiescent_stable. Qed.
+Print Assumptions C14_quiescent_stable.
+
+(* ... hence from some round n <= bound on EVERY later state is quiescent and reconciled, with the same table *)
+Theorem C14_converges_and_stays : forall cf e s, full_inv e s -> 0 < cf_rs cf -> calm e -> items_ready e s ->
+  exists n, (n <= bound cf e s)%nat /\
+    forall m, (n <= m)%nat ->
+      quiescent (fst (iter_round cf m (e, s))) (snd (iter_round cf m (e, s))) /\
+      reconciled (fst (iter_round cf m (e, s))) /\
+      e_tab (fst (iter_round cf m (e, s))) = e_tab (fst (iter_round cf n (e, s))).
+Proof. exact converges_and_stays. Qed.
+Print Assumptions C14_converges_and_stays.
+
+(* in every reachable state every retry item is accounted for (ItemsInv.item_ok): its key has work ahead of
+   the cursor, or it is queued (a delete retry; an update retry with the object still in Error) ... *)
+Theorem C14_reach_items_inv : forall cf st, reach cf st ->
+  items_inv (e_tab (fst st)) (k_cursor (snd st)) [] (k_ret (snd st)).
+Proof. exact reach_items_inv. Qed.
+Print Assumptions C14_reach_items_inv.
+
+(* ... so in a reachable state "every QUEUED item is due" is all that items_ready asks for *)
+Theorem C14_reach_items_ready : forall cf e s, reach cf (e, s) ->
+  (forall it, In it (q_items (k_ret s)) -> ri_inq it = true -> ri_at it <= e_now e) -> items_ready e s.
+Proof. exact reach_items_ready. Qed.
+Print Assumptions C14_reach_items_ready.
+
+(* the property for runs: from ANY reachable state — whatever history of inserts, updates, deletes, failing
+   operations, user writes from inside operations, round sizes, batch or single mode and timings led there —
+   once operations stop failing, the table stops changing and the queued retries are due, the reconciler is
+   quiescent and reconciled after at most ceil((pending + items) / roundSize) + 1 rounds, and stays so *)
+Theorem C14_converges_from_reach : forall cf e s, reach cf (e, s) -> 0 < cf_rs cf -> calm e ->
+  (forall it, In it (q_items (k_ret s)) -> ri_inq it = true -> ri_at it <= e_now e) ->
+  exists n, (n <= bound cf e s)%nat /\
+    forall m, (n <= m)%nat ->
+      quiescent (fst (iter_round cf m (e, s))) (snd (iter_round cf m (e, s))) /\
+      reconciled (fst (iter_round cf m (e, s))) /\
+      e_tab (fst (iter_round cf m (e, s))) = e_tab (fst (iter_round cf n (e, s))).
+Proof. exact converges_from_reach. Qed.
+Print Assumptions C14_converges_from_reach.
+
+(* the same, operationally: take any reachable state, switch the fault oracle off and let the clock pass the
+   largest retryAt of the queue *)
+Theorem C14_converges_after_faults_stop : forall cf e s T, reach cf (e, s) -> 0 < cf_rs cf -> hooks_inert e ->
+  max_at (k_ret s) <= T ->
+  let e1 := faults_off (set_now e T) in
+  reach cf (e1, s) /\
+  exists n, (n <= bound cf e1 s)%nat /\
+    forall m, (n <= m)%nat ->
+      quiescent (fst (iter_round cf m (e1, s))) (snd (iter_round cf m (e1, s))) /\
+      reconciled (fst (iter_round cf m (e1, s))).
+Proof. exact converges_after_faults_stop. Qed.
+Print Assumptions C14_converges_after_faults_stop.
+
+(* non-vacuity: a reachable state (single mode, round size 2) with 3 changes ahead of the cursor (a Pending
+   object, a deletion, another Pending object) and 1 retry item: measure 4, bound 3 — not quiescent after 2
+   rounds, quiescent after 3, all live objects Done (kind code 2), target = table *)
+Example C14_converges_bounded_nonvacuous :
+  reach ex_cf (ex_e, ex_s) /\ full_inv ex_e ex_s /\ 0 < cf_rs ex_cf /\ calm ex_e /\ items_ready ex_e ex_s /\
+  measure ex_e ex_s = 4%nat /\ length (q_items (k_ret ex_s)) = 1%nat /\ bound ex_cf ex_e ex_s = 3%nat /\
+  ~ quiescent (fst (iter_round ex_cf 2 (ex_e, ex_s))) (snd (iter_round ex_cf 2 (ex_e, ex_s))) /\
+  quiescent (fst (iter_round ex_cf 3 (ex_e, ex_s))) (snd (iter_round ex_cf 3 (ex_e, ex_s))) /\
+  live_objs (e_tab (fst (iter_round ex_cf 3 (ex_e, ex_s)))) = [(1, 1, 2); (3, 3, 2); (4, 4, 2)] /\
+  e_target (fst (iter_round ex_cf 3 (ex_e, ex_s))) = [(3, 3); (4, 4); (1, 1)].
+Proof. exact converges_bounded_nonvacuous. Qed.
+Print Assumptions C14_converges_bounded_nonvacuous.
+
+(* what the hypotheses are for. (a) full_inv alone does not imply convergence: it does not constrain an item
+   that was popped and not re-queued (ri_inq = false); in the state below every round is the identity and
+   the queue never drains. The state is NOT reachable (C14_reach_items_inv excludes it) — this refutes only
+   the statement with the weaker hypothesis, not the implementation. *)
+Theorem C14_converges_needs_items_ready_refuted :
+  full_inv stale_e stale_s /\ 0 < cf_rs stale_cf /\ calm stale_e /\
+  (forall it, In it (q_items (k_ret stale_s)) -> ri_at it <= e_now stale_e) /\
+  forall n, ~ quiescent (fst (iter_round stale_cf n (stale_e, stale_s))) (snd (iter_round stale_cf n (stale_e, stale_s))).
+Proof. exact converges_needs_items_ready_refuted. Qed.
+Print Assumptions C14_converges_needs_items_ready_refuted.
+
+(* (b) the round size must be positive (reconciler/config.go rejects IncrementalRoundSize <= 0): with round
+   size 0 the retry phase never runs and a retry item of a REACHABLE state stays for ever *)
+Theorem C14_converges_needs_positive_round_size_refuted :
+  reach rs0_cf (rs0_e, rs0_s) /\ cf_rs rs0_cf = 0 /\ calm rs0_e /\ items_ready rs0_e rs0_s /\
+  forall n, ~ quiescent (fst (iter_round rs0_cf n (rs0_e, rs0_s))) (snd (iter_round rs0_cf n (rs0_e, rs0_s))).
+Proof. exact converges_needs_positive_round_size_refuted. Qed.
+Print Assumptions C14_converges_needs_positive_round_size_refuted.
